@@ -144,3 +144,20 @@ def check(ctx, rep: Report):
     rep.evaluations += len(r["rows"])
     for dd in dropped[:1]:
         rep.violate(Violation("C10.DC", "C10.DC|dropped", f"__deepcopy__ drops a __dict__ entry from the copy (decisions {dd}): deepcopy(x) != x", "", "DeepCopyMethod.deepcopy"))
+
+
+    # ---- RECON: re-constructing an instance from its own attribute values gives an equal instance - the constructor
+    # must not drop falsy keyword values / defaults (shared with C09.DEF)
+    rep.rules["C10.RECON"] = "the constructor tests presence of keyword values / defaults by identity with MISSING, never by truthiness"
+    from .c09 import init_worker
+    bad = []
+    for role in ("own", "parent"):
+        r = init_worker(role)
+        for tok, site in r["truth"]:
+            if "lookup_default_value" in tok or tok.startswith("kwargs/"):
+                fn, stmt = ctx.p.stmt_at(site)
+                bad.append((stmt, tok.split("/")[-1], site))
+    rep.oblige("C10.RECON", "InitMethod.init", not bad, str(bad[:1]))
+    for stmt, what, site in sorted(set(bad))[:2]:
+        rep.violate(Violation("C10.RECON", f"C10.RECON|{stmt[:60]}", f"InitMethod.init: `{stmt}` tests the truthiness of a constructor value/default: falsy attribute values (0, '', [], None, False) are dropped, so Cls(**values_of(x)) != x",
+                              site, "InitMethod.init"))
